@@ -15,4 +15,34 @@ CHECKS = {
         "technique": "contract-based deductive verification (ast->VC->z3/cvc5) + bounded stand-in",
     },
 }
+TECH = "contract-based deductive verification (ast->VC->z3/cvc5) + bounded stand-in"
+CHECKS.update({
+    "C02": {"category": "proof",
+            "text": "every row of the unit table and prefix table is re-extracted from the source and compared "
+                    "exactly with independently written definitions (ground, exhaustive); the prefix lookup "
+                    "_lookup_unit_symbol/_split_prefix and the conversion factor are proved for all strings, all "
+                    "tables and all real scales; x.to(u2) = x*scale(u1)/scale(u2) is a lemma over that contract",
+            "note": TRUST + "; the spec table /verif/spec/unit_definitions.py", "technique": TECH},
+    "C05": {"category": "proof",
+            "text": "Unit.__mul__, __truediv__, __pow__, __eq__, same_dimensions_as, as_coeff_unit are proved "
+                    "from their real bodies against postconditions on scale, dimension vector, offset, registry "
+                    "and expression for all units; commutativity, associativity, identity, inverse, power laws "
+                    "and the (scale, dimension) homomorphism are lemmas over those contracts",
+            "note": TRUST + "; sympy expression algebra is uninterpreted (assumed canonicalisation)", "technique": TECH},
+    "C14": {"category": "proof",
+            "text": "_split_prefix and _lookup_unit_symbol are proved for all strings and all tables (z3 strings): "
+                    "prefix+remainder reassemble the string, only prefixable table symbols take a prefix, a table "
+                    "symbol always wins over a split; the finite documented name space (~17k name/attribute cases) "
+                    "is enumerated completely on the real package (bounded, exhaustive)",
+            "note": TRUST, "technique": TECH},
+    "C17": {"category": "proof",
+            "text": "dtype obligations of in_units/to/convert_to_units are decided for the whole dtype lattice "
+                    "(symbolic kind and itemsize): integers go to the float of the same item size (>=16 bit) or the "
+                    "call raises, floats keep their width, complex stays complex, copy and in-place routes agree",
+            "note": TRUST + "; NumPy dtype/promotion rules are assumed contracts (numpy-dtype)", "technique": TECH},
+    "C18": {"category": "proof",
+            "text": "normal and exceptional frame conditions of the conversion routes and as_coeff_unit: every raising "
+                    "path leaves numbers, dtype and unit of the target unchanged; copying routes never write their input",
+            "note": TRUST, "technique": TECH},
+})
 NOT_APPLICABLE = {}
